@@ -14,7 +14,7 @@ vars == <<i, st, bad, cnt>>
 
 Clauses(e, carried) ==
   LET base == ConnClauses(e) IN
-  IF e.pos > 1 /\ base.WellFormed /\ e.scale > 0 /\ carried # <<>>
+  IF e.pos > 1 /\ e.ni = 1 /\ base.WellFormed /\ e.scale > 0 /\ carried # <<>>
   THEN LET g == GeoCanon(e) IN
        base @@ [NI_cells |-> g.cells = carried.cells, NI_facets |-> g.facets = carried.facets,
                 NI_f2t |-> g.f2t = carried.f2t, NI_bfacets |-> g.bfacets = carried.bfacets,
